@@ -120,7 +120,71 @@ def pools(w):
         ("7 bit", 7 * Bit, F(7), None),
         ("2 KiB", 2 * KiB, F(16384), None),
     ]
+    # areas and volumes written as powers of length units that are several declared hops apart
+    # (mile -> foot -> inch ...): the implicit conversion takes a different path in each
+    # direction, so an exponent mishandled along a multi-hop path shows as an incoherent order
+    from measured.si import Hectare, Liter
+    from measured.us import Acre, Gallon, Inch, Yard
+
+    def exact(u):
+        return F(str(size_oracle(w).unit_size(u)))
+
+    def item(label, mag, u):
+        return (label, mag * u, F(str(mag)) * exact(u), None)
+
+    km2 = (Kilo * Meter) ** 2
+    out["area"] = [
+        ("1000000 m2", 1000000 * Meter**2, F(10**6), "k"),
+        ("1 km2", 1 * km2, F(10**6), "k"),
+        ("1.0 km2", 1.0 * km2, F(10**6), "k"),
+        item("1 mi2", 1, Mile**2),
+        item("1000000000 in2", 1000000000, Inch**2),
+        item("5e9 in2", 5e9, Inch**2),
+        item("3 ft2", 3, Foot**2),
+        item("2000000 yd2", 2000000, Yard**2),
+        item("1 acre", 1, Acre),
+        item("700 acre", 700, Acre),
+        item("1 ha", 1, Hectare),
+        item("D2.5 mi2", D("2.5"), Mile**2),
+        ("0 ft2", 0 * Foot**2, F(0), "z"),
+        ("0.0 mi2", 0.0 * Mile**2, F(0), "z"),
+    ]
+    out["volume"] = [
+        item("1 mi3", 1, Mile**3),
+        item("1e14 in3", 1e14, Inch**3),
+        item("3e14 in3", 3e14, Inch**3),
+        item("1 yd3", 1, Yard**3),
+        item("30 ft3", 30, Foot**3),
+        item("1 m3", 1, Meter**3),
+        item("900 L", 900, Liter),
+        item("250 gal", 250, Gallon),
+        item("1 gal", 1, Gallon),
+        item("D4 L", D(4), Liter),
+        item("1e9 km3", 1e9, (Kilo * Meter) ** 3),
+    ]
+    from measured.si import Hertz
+
+    out["per-area"] = [
+        item("1 mi-2", 1, Mile**-2),
+        item("1e-9 in-2", 1e-9, Inch**-2),
+        item("5e-7 yd-2", 5e-7, Yard**-2),
+        item("1e-6 m-2", 1e-6, Meter**-2),
+        item("1e-6 ft-2", 1e-6, Foot**-2),
+        item("D3 mi-2", D(3), Mile**-2),
+    ]
     return out
+
+
+_SIZES = None
+
+
+def size_oracle(w):
+    global _SIZES
+    if _SIZES is None:
+        from ..models import SizeOracle
+
+        _SIZES = SizeOracle(w)
+    return _SIZES
 
 
 def relation(a, b):
@@ -293,7 +357,41 @@ def mixed_pool(w):
         ("A 0.1 kW ~0", m.approximately(0.1 * kW, 0)),
         ("A 0 W", m.approximately(0 * Watt)),
     ]
+    # measurements on different temperature scales (an offset must never leak into a width)
+    from measured.si import Celsius, Kelvin
+    from measured.us import Fahrenheit, Rankine
+
+    items += [
+        ("Q 20 degC", 20 * Celsius),
+        ("Q 293.15 K", 293.15 * Kelvin),
+        ("M 20±0 degC", M(20 * Celsius, 0)),
+        ("M 20±1 degC", M(20 * Celsius, 1)),
+        ("M 293.15±0.5 K", M(293.15 * Kelvin, 0.5)),
+        ("M 567±1 K", M(567 * Kelvin, 1)),
+        ("M 300±250 K", M(300 * Kelvin, 250)),
+        ("M 68±2 degF", M(68 * Fahrenheit, 2)),
+        ("M 560±1 degR", M(560 * Rankine, 1)),
+        ("M 100±5 degC", M(100 * Celsius, 5)),
+        ("M 373±1 K", M(373 * Kelvin, 1)),
+        ("A 20 degC ~0.01", m.approximately(20 * Celsius, 0.01)),
+        ("A 293.15 K ~0.001", m.approximately(293.15 * Kelvin, 0.001)),
+    ]
     return items
+
+
+# interval model for measurements on temperature scales: (low, high) in kelvin
+def kelvin_interval(label):
+    import re
+
+    mt = re.match(r"M (-?[0-9.]+)±([0-9.]+) (degC|K|degF|degR)$", label)
+    if not mt:
+        return None
+    x, s_, sc = float(mt.group(1)), float(mt.group(2)), mt.group(3)
+
+    def k(v):
+        return {"K": v, "degC": v + 273.15, "degF": (v + 459.67) * 5 / 9, "degR": v * 5 / 9}[sc]
+
+    return k(x - s_), k(x + s_)
 
 
 def kind_of(label):
@@ -327,6 +425,18 @@ def check_mixed(w):
                  f"({la}) != ({lb}) is {n1!r} while == is {e1!r}",
                  {"what": "mixed", "a": la, "b": lb})
             )
+        ia, ib = kelvin_interval(la), kelvin_interval(lb)
+        if ia and ib:
+            gap = max(ia[0], ib[0]) - min(ia[1], ib[1])  # > 0: disjoint, < 0: overlapping
+            if abs(gap) > 1e-6:
+                want = gap < 0
+                if e1 is not want or e2 is not want:
+                    viols.append(
+                        ("measurement_eq_disagrees_with_intervals", "temperature scales",
+                         f"({la}) == ({lb}) is {e1!r} / reversed {e2!r}; the intervals in kelvin {ia} and {ib} "
+                         f"{'overlap' if want else 'are disjoint'}",
+                         {"what": "mixed", "a": la, "b": lb})
+                    )
         if la is lb and e1 is not True:
             viols.append(("reflexivity", f"{kind_of(la)}", f"({la}) == itself is {e1!r}", {"what": "mixed", "a": la, "b": lb}))
         # The mirror laws (<= vs >=, < vs >) are claimed for quantities only; a Level denotes
@@ -413,6 +523,12 @@ def replay(obj, kind=None):
             or (obj["a"] == obj["b"] and obs["a==b"] is not True)
             or (isinstance(obs["a==b"], bool) and obs["a==b"] == obs["a!=b"])
         )
+        ia, ib = kelvin_interval(obj["a"]), kelvin_interval(obj["b"])
+        if ia and ib:
+            gap = max(ia[0], ib[0]) - min(ia[1], ib[1])
+            if abs(gap) > 1e-6 and (obs["a==b"] is not (gap < 0) or obs["b==a"] is not (gap < 0)):
+                bad = True
+                obs["intervals_in_kelvin"] = [ia, ib]
         return bad, f"{obj['a']} vs {obj['b']}: {obs}"
     pool = pools(w)[obj["dim"]]
     if obj["what"] == "pair":
